@@ -228,6 +228,56 @@ def run(ctx, scratch):
             if not ok:
                 ctx.violation('breadth_first_search', 'output is not the reachable nodes in non-decreasing distance',
                               case=dict(n=n, edges=E, source=s), expected_distances=dist, observed=r, family=fam)
+        # ---- several calls on ONE matrix object (bool / int / float CSR): each result must be what a fresh matrix gives
+        #      (a working copy that aliases the caller's buffers makes the first call correct and the following ones wrong)
+        for k in range(60 if quick else 600):
+            n, E, fam = gen.random_graph(rng, nmax, directed=rng.random() < 0.5)
+            if not E:
+                continue
+            E = sorted(set(E))
+            m = mspec(n, n, E, rng=rng)
+            m['dtype'] = ['bool', 'int', 'float'][k % 3]
+            m['coo'] = [[i, j, 1] for (i, j) in E]
+            steps = []
+            for _s in range(4):
+                kind = rng.choice(['sp', 'dag', 'dist', 'sp', 'bfs'])
+                if kind == 'dag':
+                    steps.append(dict(kind='dag', order=[rng.randint(-1, 3) for _ in range(n)]))
+                elif kind == 'bfs':
+                    steps.append(dict(kind='bfs', source=rng.randrange(n)))
+                else:
+                    steps.append(dict(kind=kind, source=sorted(rng.sample(range(n), rng.randint(1, min(2, n))))))
+            r = impl.call('c10', 'sequence', dict(m=m, steps=steps), timeout=30)
+            ctx.traces += 1
+            ctx.count('sequence:' + fam, ('seq', n, tuple(E), repr(steps), m['dtype']), True)
+            if 'ok' not in r:
+                ctx.violation('get_shortest_path', 'a sequence of path calls on one matrix crashed / hung', case=dict(m=m, steps=steps),
+                              observed=r, family='same_object_sequence')
+                continue
+            for pos, (st, got) in enumerate(zip(steps, r['ok'])):
+                if st['kind'] == 'dag':
+                    o = st['order']
+                    exp = {'ok': sorted([i, j] for (i, j) in E if 0 <= o[i] < o[j])}
+                    got = {'ok': sorted(got['ok'])} if 'ok' in got else got
+                elif st['kind'] == 'bfs':
+                    dist = _bfs(n, E, [st['source']])
+                    ok = 'ok' in got and len(set(got['ok'])) == len(got['ok']) and \
+                        set(got['ok']) == {v for v in range(n) if dist[v] >= 0} and \
+                        all(dist[a] <= dist[b] for a, b in zip(got['ok'], got['ok'][1:]))
+                    exp = got if ok else {'ok': 'the reachable nodes in non-decreasing distance', 'distances': dist}
+                else:
+                    dist = _bfs(n, E, st['source'])
+                    if st['kind'] == 'dist':
+                        exp = {'ok': dist}
+                    else:
+                        exp = {'ok': sorted([i, j] for (i, j) in E if dist[i] >= 0 and dist[j] == dist[i] + 1)}
+                        got = {'ok': sorted(got['ok'])} if 'ok' in got else got
+                if got != exp:
+                    site = {'dag': 'get_dag', 'bfs': 'breadth_first_search', 'dist': 'get_distances', 'sp': 'get_shortest_path'}[st['kind']]
+                    ctx.violation(site, 'call number %d on the same matrix object differs from the definition (the first calls were '
+                                  'correct: an earlier call disturbed the matrix)' % (pos + 1), case=dict(m=m, steps=steps),
+                                  expected=exp, observed=got, family='same_object_sequence', step=pos, dtype=m['dtype'])
+                    break
     ctx.rule = ('exhaustive digraphs n<=3 (loops) x source sets x transpose, sampled loop-free digraphs n=4, all/sampled '
                 'biadjacency matrices up to 3x3 with row/column/mixed sources, structured random graphs (13 families), '
                 'malformed stream; model evaluated by vm_compute inside Coq, implementation in a worker on the scratch '
